@@ -18,6 +18,10 @@
 #include <errno.h>
 
 #define BUFSZ (262144)
+#ifdef AGENTD_SQUASHFS_TOOLS_NG_VERIF_BUFSZ /* verification hook: scale the buffer for bounded checking */
+#undef BUFSZ
+#define BUFSZ (AGENTD_SQUASHFS_TOOLS_NG_VERIF_BUFSZ)
+#endif
 
 typedef struct ostream_xfrm_t {
 	sqfs_ostream_t base;
